@@ -140,6 +140,7 @@ def check_lifecycle(run, lc):
         run.sample({"rule": "O4.5", "config": run.cur_config, "site": lc.loc(sbb), "abstract_states": len(states), "values(killed,consumed)": sorted(seen_vals)})
     # the ctrl_some flag really exists (anchor for O4.5): a switch on the Option<ControlSignal> received
     have_ctrl = any(i["cls"] and i["cls"][:2] == ("recv", "ctrl") and "Some" in i["arms"] and "None" in i["arms"] for i in lc.switch_info.values())
+    have_ctrl = have_ctrl or lc.ctrl_split_by_predicate()
     run.require(have_ctrl, "O4.5", "ctrl-outcome-matched", "cannot find the match on the received Option<ControlSignal>", "received control signal matched Some/None")
 
 
